@@ -133,6 +133,47 @@ var families = []family{
 			return fmt.Sprintf("fn r(n: int) -> int { let a = n; if n == 0 { 0 } else { 1 + r(n - 1) } }\nfn main() { println(r(%d)); }\n", d)
 		},
 		demand: func(d int, dim string) int { return d }},
+	// the same recursion reached in other ways: every way of entering a function must count against the call limit
+	{name: "recursion-fn-value", dims: []string{"call", "stack", "mem", "treecall"},
+		gen: func(d int) string {
+			return fmt.Sprintf("fn r(n: int) -> int { let step = r; let a = n; if n == 0 { 0 } else { 1 + step(n - 1) } }\nfn main() { println(r(%d)); }\n", d)
+		},
+		demand: func(d int, dim string) int { return d }},
+	{name: "recursion-mutual", dims: []string{"call", "stack", "mem", "treecall"},
+		gen: func(d int) string {
+			return fmt.Sprintf("fn a(n: int) -> int { let x = n; if n == 0 { 0 } else { 1 + b(n - 1) } }\nfn b(n: int) -> int { let y = n; if n == 0 { 0 } else { 1 + a(n - 1) } }\nfn main() { println(a(%d)); }\n", d)
+		},
+		demand: func(d int, dim string) int { return d }},
+	{name: "recursion-mutual-fn-values", dims: []string{"call", "stack", "mem"},
+		gen: func(d int) string {
+			return fmt.Sprintf("fn a(n: int) -> int { let f = b; let x = n; if n == 0 { 0 } else { 1 + f(n - 1) } }\nfn b(n: int) -> int { let g = a; let y = n; if n == 0 { 0 } else { 1 + g(n - 1) } }\nfn main() { let s = a; println(s(%d)); }\n", d)
+		},
+		demand: func(d int, dim string) int { return d }},
+	{name: "recursion-higher-order", dims: []string{"call", "stack", "mem", "treecall"},
+		gen: func(d int) string {
+			return fmt.Sprintf("fn ap(f: fn(n: int) -> int, n: int) -> int { f(n) }\nfn r(n: int) -> int { let a = n; if n == 0 { 0 } else { 1 + ap(r, n - 1) } }\nfn main() { println(r(%d)); }\n", d)
+		},
+		demand: func(d int, dim string) int { return d }},
+	{name: "recursion-in-try", dims: []string{"call", "stack", "mem", "treecall"},
+		gen: func(d int) string {
+			return fmt.Sprintf("fn r(n: int) -> int { let a = n; try { if n == 0 { 0 } else { 1 + r(n - 1) } } catch e { 0 - 1 } }\nfn main() { println(r(%d)); }\n", d)
+		},
+		demand: func(d int, dim string) int { return d }},
+	{name: "recursion-in-loop-and-match", dims: []string{"call", "stack", "mem", "treecall"},
+		gen: func(d int) string {
+			return fmt.Sprintf("fn r(n: int) -> int { let s = 0; for i in 0..1 { s += match n { 0 => 0, _ => 1 + r(n - 1) }; } s }\nfn main() { println(r(%d)); }\n", d)
+		},
+		demand: func(d int, dim string) int { return d }},
+	{name: "recursion-statements", dims: []string{"call", "mem", "treecall"},
+		gen: func(d int) string {
+			return fmt.Sprintf("fn r(n: int) { let a = n; if n > 0 { r(n - 1); } }\nfn main() { r(%d); println(1); }\n", d)
+		},
+		demand: func(d int, dim string) int { return d }},
+	{name: "recursion-lambda", dims: []string{"call", "stack", "mem", "treecall"},
+		gen: func(d int) string {
+			return fmt.Sprintf("fn r(n: int) -> int { let a = n; let l = fn(k: int) -> int { r(k) }; if n == 0 { 0 } else { 1 + l(n - 1) } }\nfn main() { println(r(%d)); }\n", d)
+		},
+		demand: func(d int, dim string) int { return d }},
 	{name: "expr-nesting", dims: []string{"stack"},
 		gen: func(e int) string {
 			// pending operands stay on the stack while a long computation runs in the innermost operand
